@@ -149,6 +149,90 @@ def check_acct(ck, prog):
     ck.floor("C07-ACCT", 3)
 
 
+def _controlling(f, bid, ref_bid):
+    """Conditions (node, taken edge 'T'/'F') of the branch blocks that lie after block ref_bid and decide whether block
+    bid is reached."""
+    doms = cfg.dominators(f)
+    out = []
+    for d in doms.get(bid, ()):
+        if d == bid:
+            continue
+        blk = f.blocks[d]
+        if not (blk.term and "cond" in blk.term and len(blk.succs) == 2):
+            continue
+        if ref_bid is not None and ref_bid not in doms.get(d, ()) and d != ref_bid:
+            continue
+        for lab, s_ in (("T", blk.succs[0]), ("F", blk.succs[1])):
+            other = blk.succs[1] if lab == "T" else blk.succs[0]
+            if s_ is not None and (s_ == bid or s_ in doms.get(bid, ())) and other != s_:
+                out.append((blk.term["cond"], lab))
+    return out
+
+
+# (id, function, what: ("call", name) | ("store", field), reference call after which conditions are collected,
+#  the exact set of controlling conditions as (pattern, edge), why)
+PROGRESS = [
+    ("enable-partial", "read_output_and_wait", ("call", "lzma_outq_enable_partial_output"), "lzma_outq_read",
+     [("var:ret&enum:LZMA_STREAM_END", "T")],
+     "whenever a Block was finished the worker of the next Block is told to publish partial output -- also when the "
+     "caller's output buffer is full: otherwise a stalled worker is never noticed and lzma_code() waits forever"),
+    ("publish-progress", "worker_decoder", ("store", "decoder_in_pos"), "slot:code",
+     [("var:ret&enum:LZMA_OK", "T"), ("var:partial_update&enum:PARTIAL_DISABLED", "T")],
+     "with partial updates enabled the worker publishes in_pos/out_pos after every chunk, also when the chunk produced "
+     "no output: the main thread detects 'all input consumed, no progress' from decoder_in_pos"),
+]
+
+
+def check_progress(ck, prog):
+    from sa import guard
+    ck.rule("C07-PROGRESS", "the publication steps that the stall detection of the main thread relies on are controlled "
+                            "by exactly the documented conditions")
+    for (oid, fn, what, ref, want, why) in PROGRESS:
+        f = prog.fn(fn, FILE)
+        ck.saw_function(f)
+        refb = None
+        for b, i, e in f.iter_elems():
+            for c in ex.calls(e, into_refs=False):
+                if c.get("fn") == ref or (ref.startswith("slot:") and guard._is_slot_call(c, ref[5:])):
+                    refb = b.id
+        sites = []
+        for b, i, e in f.iter_elems():
+            if what[0] == "call":
+                if any(c.get("fn") == what[1] for c in ex.calls(e, into_refs=False)):
+                    sites.append((b.id, e))
+            else:
+                for (l, r, op, node) in ex.writes(e):
+                    fk = ex.field_key(l)
+                    if fk and fk[1] == what[1]:
+                        sites.append((b.id, node))
+        if refb is None or not sites:
+            raise AnalysisBroken("%s: %s / %s not found" % (fn, ref, what))
+        sites.sort(key=lambda t: ex.line(t[1]) or 0)
+        bid, node = sites[0]
+        conds = _controlling(f, bid, refb)
+        extra = []
+        matched = set()
+        conds = [(c, lab) for (c, lab) in conds
+                 if not any(x.get("k") == "var" and x["n"].startswith("mythread_") for x in ex.walk(c))]
+        for (c, lab) in conds:
+            neg = ex.show(c).replace("(", "").startswith("!")
+            hit = None
+            for k, (pat, wl) in enumerate(want):
+                if guard.pat_match(f, c, "&".join("d_" + p_ for p_ in pat.split("&"))):
+                    hit = k
+            if hit is None:
+                extra.append("%s [%s]" % (ex.show(c), lab))
+            else:
+                matched.add(hit)
+        ok = not extra and len(matched) == len(want)
+        ck.ob("C07-PROGRESS", oid, ok, common.where(f, node),
+              "%s: %s at line %s is controlled by exactly %s" % (fn, what[1], ex.line(node), [ex.show(c) for c, _ in conds])
+              if ok else
+              "%s(): %s (line %s) additionally depends on %s: %s" % (fn, what[1], ex.line(node), extra or "(a documented "
+              "condition is missing)", why), key="PROGRESS:" + oid)
+    ck.floor("C07-PROGRESS", 2)
+
+
 def check_cve(ck, prog):
     ck.rule("C07-CVE", "worker_decoder frees thr->in, moves memory counters and returns the thread to the "
             "free list only when ret == LZMA_STREAM_END (or on the terminating THR_EXIT path)")
@@ -241,5 +325,6 @@ def run(ck):
     reinit.check_init_consistency(ck, prog, "C07-INITCONS", files={FILE})
     check_cve(ck, prog)
     check_acct(ck, prog)
+    check_progress(ck, prog)
     ck.rule("C07-ERR", "pending error after drain; quiescent states entered only after the queue was empty")
     evaluate(ck, prog, "C07-ERR", TABLE, floor=3)
